@@ -123,7 +123,7 @@ fn view<S: assets_manager::source::Source>(c: &AssetCache<S>, load: bool) -> BTr
 
 /// what the script of node `id` evaluates to against the current source (its own file) and the
 /// current cache contents (nested assets, all cached in this world)
-fn node_expected(c: &AssetCache<assets_manager::source::FileSystem>, root: &Path, id: &str) -> Option<String> {
+fn node_expected<S: assets_manager::source::Source>(c: &AssetCache<S>, root: &Path, id: &str) -> Option<String> {
     use std::fmt::Write;
     let script = std::fs::read_to_string(root.join(format!("{id}.n"))).ok()?;
     let mut out = String::new();
@@ -144,6 +144,33 @@ fn node_expected(c: &AssetCache<assets_manager::source::FileSystem>, root: &Path
     Some(format!("{} =>{}", script.trim(), out))
 }
 
+/// a custom source built the documented way: reads through `FileSystem`, hot-reloading through
+/// `FsWatcherBuilder` watching the path AS GIVEN (here: through a symbolic link)
+pub struct SymSrc {
+    fs: assets_manager::source::FileSystem,
+    watch: PathBuf,
+}
+impl assets_manager::source::Source for SymSrc {
+    fn read(&self, id: &str, ext: &str) -> std::io::Result<assets_manager::source::FileContent> {
+        self.fs.read(id, ext)
+    }
+    fn read_dir(&self, id: &str, f: &mut dyn FnMut(assets_manager::source::DirEntry)) -> std::io::Result<()> {
+        self.fs.read_dir(id, f)
+    }
+    fn exists(&self, e: assets_manager::source::DirEntry) -> bool {
+        self.fs.exists(e)
+    }
+    fn make_source(&self) -> Option<Box<dyn assets_manager::source::Source + Send>> {
+        Some(Box::new(self.fs.clone()))
+    }
+    fn configure_hot_reloading(&self, events: assets_manager::hot_reloading::EventSender) -> Result<(), assets_manager::BoxedError> {
+        let mut w = assets_manager::hot_reloading::FsWatcherBuilder::new()?;
+        w.watch(self.watch.clone())?;
+        w.build(events);
+        Ok(())
+    }
+}
+
 pub struct FsRun {
     pub viol: Vec<(String, String)>,
     pub canon: String,
@@ -154,8 +181,20 @@ pub struct FsRun {
 }
 
 pub fn run_fs(hist: &[String], tag: &str) -> FsRun {
-    let root = std::env::temp_dir().join(format!("c05fs-{}-{tag}", std::process::id()));
-    let _ = std::fs::remove_dir_all(&root);
+    run_fs_mode(hist, tag, false)
+}
+
+/// `symlink`: the asset directory is reached (and watched) through a symbolic link
+pub fn run_fs_mode(hist: &[String], tag: &str, symlink: bool) -> FsRun {
+    let base = std::env::temp_dir().join(format!("c05fs-{}-{tag}", std::process::id()));
+    let _ = std::fs::remove_dir_all(&base);
+    let root = if symlink {
+        std::fs::create_dir_all(base.join("storage/mods-v1")).unwrap();
+        std::os::unix::fs::symlink("storage/mods-v1", base.join("mods")).unwrap();
+        base.join("mods")
+    } else {
+        base.clone()
+    };
     for (f, c) in INIT {
         let p = root.join(f);
         std::fs::create_dir_all(p.parent().unwrap()).unwrap();
@@ -168,21 +207,41 @@ pub fn run_fs(hist: &[String], tag: &str) -> FsRun {
     let r = ds::run_one(&[], &ds::Config { writer_pref: false, horizon: 100_000, record_ops: false }, move || {
         notify::stub_reset();
         crate::hr::ledger_reset();
+        // (the branches only differ in the source type)
+        if symlink {
+            let src = SymSrc { fs: assets_manager::source::FileSystem::new(&root2).unwrap(), watch: root2.clone() };
+            let c = AssetCache::with_source(src);
+            ds::adopt(1, "reloader");
+            let r = body(&c, &root2, &hist2);
+            *o2.lock().unwrap() = r;
+            return;
+        }
         let c = AssetCache::new(&root2).unwrap();
         ds::adopt(1, "reloader");
-        let _ = view(&c, true);
+        let r = body(&c, &root2, &hist2);
+        *o2.lock().unwrap() = r;
+    });
+    let _ = std::fs::remove_dir_all(&base);
+    let (viol, canon, applied) = out.lock().unwrap().clone();
+    FsRun { viol, canon, applied, verdict: r.verdict, panicked: r.panicked, steps: r.steps }
+}
+
+fn body<S: assets_manager::source::Source + Sync>(c: &AssetCache<S>, root2: &Path, hist2: &[String]) -> (Vec<(String, String)>, String, Vec<bool>) {
+    {
+        let c = c;
+        let _ = view(c, true);
         ds::quiesce();
         let mut viol = vec![];
         let mut applied = vec![];
-        for a in &hist2 {
-            let before = view(&c, false);
-            let ok = perform(&root2, a);
+        for a in hist2 {
+            let before = view(c, false);
+            let ok = perform(root2, a);
             applied.push(ok);
             ds::quiesce();
             c.hot_reload();
-            let after = view(&c, false);
+            let after = view(c, false);
             let fresh = {
-                let f = AssetCache::without_hot_reloading(assets_manager::source::FileSystem::new(&root2).unwrap());
+                let f = AssetCache::without_hot_reloading(assets_manager::source::FileSystem::new(root2).unwrap());
                 view(&f, true)
             };
             for (k, v) in &after {
@@ -193,7 +252,7 @@ pub fn run_fs(hist: &[String], tag: &str) -> FsRun {
                 if k == "N t" {
                     // a compound is evaluated against the current CACHE: its nested assets may
                     // legitimately hold a previous value (their own reload failed)
-                    want = match node_expected(&c, &root2, "t") {
+                    want = match node_expected(c, root2, "t") {
                         Some(x) => Ok(x),
                         None => before[k].clone(),
                     };
@@ -204,22 +263,36 @@ pub fn run_fs(hist: &[String], tag: &str) -> FsRun {
                 }
             }
         }
-        let canon = format!("{:?}", view(&c, false));
-        *o2.lock().unwrap() = (viol, canon, applied);
-    });
-    let _ = std::fs::remove_dir_all(&root);
-    let (viol, canon, applied) = out.lock().unwrap().clone();
-    FsRun { viol, canon, applied, verdict: r.verdict, panicked: r.panicked, steps: r.steps }
+        let canon = format!("{:?}", view(c, false));
+        (viol, canon, applied)
+    }
 }
 
 pub fn run(args: &Args) -> SubResult {
     let mut res = SubResult::new("C05", "c05_fs");
     let acts = actions();
     let depth = if args.thorough() { 3 } else { 2 };
-    res.bound = format!("real temporary directory (7 files, 2 sub-directories, scripted nodes) behind FileSystem + the crate's notify handler (stub delivers the inotify event sequence of each action); every sequence of <= {depth} of {} actions (write / garbage / create / delete / rename within and across directories / mkdir / empty-and-remove directory) with canonical-state deduplication; watched assets: leaf, fall-back leaf, nested leaf, Directory root/d, RecursiveDirectory root, scripted node", acts.len());
+    res.bound = format!("real temporary directory (7 files, 2 sub-directories, scripted nodes) behind FileSystem + the crate's notify handler (stub delivers the inotify event sequence of each action); every sequence of <= {depth} of {} actions (write / garbage / create / delete / rename within and across directories / mkdir / empty-and-remove directory) with canonical-state deduplication; the same through a symlinked root watched by a custom FsWatcherBuilder source (depth 1); watched assets: leaf, fall-back leaf, nested leaf, Directory root/d, RecursiveDirectory root, scripted node", acts.len());
     res.rule = "explicit-state BFS, history replayed on a fresh directory + cache under detsched (default schedule, quiescence barrier); differential oracle: cached value == value a fresh cache loads from the same directory, or the previous value when that load fails; directory renames are excluded (known finding D6d); distinct = distinct canonical states".into();
     let total = acts.len();
     vcommon::run_cases(args, res, total, std::time::Duration::from_secs(900), |idx, res| {
+        // the same directory reached and watched through a symbolic link, via a custom source that uses
+        // FsWatcherBuilder the documented way (reported paths are prefixed by the path as given)
+        {
+            let h = vec![acts[idx].to_string()];
+            let r = run_fs_mode(&h, &format!("{idx}s"), true);
+            res.evaluations += 1;
+            res.transitions += 1;
+            res.states += r.steps as u64;
+            let replay = json!({"engine": "sysmc", "harness": "c05_fs", "params": {"history": h, "symlink": true}, "choices": []});
+            if r.verdict != ds::Verdict::Ok || r.panicked.is_some() {
+                res.violation("c05_fs:symlink:verdict".to_string(), format!("{:?} {:?}; history {h:?}", r.verdict, r.panicked), replay.clone());
+            }
+            for (k, dsc) in &r.viol {
+                res.violation(format!("c05_fs:symlink:{k}"), format!("(directory watched through a symlink) {dsc}; history {h:?}"), replay.clone());
+            }
+            res.outcome(&("symlink", &r.canon));
+        }
         // BFS below the first action `idx`
         let mut seen: HashSet<u64> = HashSet::new();
         let mut frontier: Vec<Vec<String>> = vec![vec![acts[idx].to_string()]];
@@ -263,7 +336,7 @@ pub fn run(args: &Args) -> SubResult {
 
 pub fn replay(v: &serde_json::Value) -> i32 {
     let h: Vec<String> = v["params"]["history"].as_array().unwrap().iter().map(|x| x.as_str().unwrap().to_string()).collect();
-    let r = run_fs(&h, "replay");
+    let r = run_fs_mode(&h, "replay", v["params"]["symlink"].as_bool().unwrap_or(false));
     println!("history {h:?}\nfinal {}\nverdict {:?}", r.canon, r.verdict);
     for (k, d) in &r.viol {
         println!("REPRODUCED {k}: {d}");
